@@ -170,6 +170,7 @@ fn wilder(rng: &mut Rng, spec: &mut Spec) {
 }
 
 fn gen(rng: &mut Rng, tier: Tier) -> Value {
+  crate::gen::HUGE_TEXTS.store(true, std::sync::atomic::Ordering::Relaxed);
   match rng.below(10) {
     0..=2 => json!({ "decoder": gen_mappings_string(rng) }),
     3..=5 => json!({ "parser": gen_bytes(rng) }),
